@@ -1,3 +1,4 @@
+import CwPlus.Lemmas.Cw3StatusTotal
 import CwPlus.Lemmas.Cw3Flex
 import CwPlus.Lemmas.Cw3FlexAt
 import CwPlus.Props.C15
@@ -535,6 +536,16 @@ theorem observed_status_monotone {ext : Ext} {fuel : Nat} {w0 w : World} {b1 b b
   rw [hp] at hp'; cases hp'
   exact hfo
 
+/-- **Every `Proposal` query of an existing proposal answers, at every block** — in every reachable world, for every
+proposal whose four tally counters together fit `u64` (`Proposal.Fits`; always the case outside the same-block finding
+D3, `C06Flex.flex_tally_le_total`).  Parity with `C05.query_always_answers`; the proviso cannot be dropped for
+cw3-flex because the recorded total need not bound the tally (D3). -/
+theorem query_always_answers {ext : Ext} {fuel : Nat} {w : World} (hr : Reachable ext fuel w) {id : Nat} {p : Proposal}
+    (hp : w.flex.core.proposals.get? id = some p) (hfit : p.Fits) (blk : Block) :
+    ∃ v, Cw3Flex.queryProposal w.flex blk id = .ok v := by
+  obtain ⟨st, hst⟩ := reachable_statusInv hr id p hp hfit blk
+  simp [Cw3Flex.queryProposal, Cw3Core.queryProposal, load, hp, viewOf, hst, bind, Except.bind, pure, Except.pure]
+
 /-! ## non-vacuity -/
 
 open CwPlus.Props.C15 in
@@ -588,5 +599,9 @@ example : executions (run Cex.noExt 10 exW0 exMore) 1 = 1 ∧ isExec (run Cex.no
     ((exW0.flex.core.proposals.get? 1).map fun p => (p.threshold, p.totalWeight, p.msgs, p.proposer, p.startHeight))
       = some (.absoluteCount 3, 5, [], "a", 10) := by
   decide
+
+/-- non-vacuity of `query_always_answers`: the proposal of the reachable world `exW0` fits `u64` (tally 1/0/0/0) -/
+example : ((exW0.flex.core.proposals.get? 1).map fun p =>
+    decide (p.votes.yes + p.votes.no + p.votes.abstain + p.votes.veto ≤ U64_MAX)) = some true := by decide
 
 end CwPlus.Props.C05Flex
